@@ -697,12 +697,11 @@ func (c *FnCtx) instrConvert(x *ssa.Convert) {
 		hn, hs := c.elemHeap(st.Elem())
 		h := c.heapGet(hn, hs)
 		if basicInfo(st.Elem())&types.IsInteger != 0 && wrapFn(st.Elem()) == "wrapu8" {
-			c.declareFun("str_of_bytes", []string{"(Array Int Int)", "Int", "Int"}, "Str")
 			c.setVal(x, app("str_of_bytes", sel(h, app("s-arr", a)), app("s-off", a), app("s-len", a)))
 			n := c.vals[x]
 			c.assume(eq(app("slen", n), app("s-len", a)))
 			k := c.fresh("k")
-			c.assume(forall([][2]string{{k, "Int"}}, implies(and(le("0", k), lt(k, app("s-len", a))), eq(app("sat", n, k), sel2(h, app("s-arr", a), add(app("s-off", a), k)))), app("sat", n, k)))
+			c.assume(forall([][2]string{{k, "Int"}}, implies(and(le("0", k), lt(k, app("s-len", a))), eq(app("sat", n, k), app("bclamp", sel2(h, app("s-arr", a), add(app("s-off", a), k))))), app("sat", n, k)))
 		} else {
 			c.declareFun("str_of_runes", []string{"(Array Int Int)", "Int", "Int"}, "Str")
 			c.setVal(x, app("str_of_runes", sel(h, app("s-arr", a)), app("s-off", a), app("s-len", a)))
